@@ -34,7 +34,62 @@ def cases(tier):
     out = [{"k": "s", "s": s} for s in clifam.scenarios(tier)]
     for i in range(len(USAGE)):
         out.append({"k": "usage", "i": i})
+    # two files under one path: the exit status is the worst of the per-file statuses, whatever the
+    # order of the files (an error in one file must not leak into the other's accounting)
+    import itertools
+
+    singles = []
+    for err, supp in (("none", "none"), ("prs", "none"), ("prs", "noqa_prs"), ("prs", "noqa"), ("tmp_undefined", "noqa_prs"), ("unbalanced", "noqa_prs")):
+        for fx in ("none", "lt01", "cp01"):
+            singles.append({"err": err, "fix": fx, "supp": supp, "feu": False})
+    for a, b in itertools.product(singles, repeat=2):
+        if a["err"] == "none" and b["err"] == "none":
+            continue
+        out.append({"k": "two", "a": a, "b": b})
     return out
+
+
+def run_two(case, res):
+    import json
+    import os
+
+    from sqlfluff.core import FluffConfig, Linter
+
+    a, b = case["a"], case["b"]
+    s = {"err": "none", "fix": "none", "supp": "none", "feu": False, "two": [a, b]}
+    d = clifam.mkdir(dict(s, text="SELECT 1\n", cfg="[sqlfluff]\ndialect = ansi\nrules = LT01,CP01\n", file="zz_unused.txt"), "two")
+    texts = {"f1.sql": clifam.scenario_text(a), "f2.sql": clifam.scenario_text(b)}
+    per_file = {}
+    old = os.getcwd()
+    os.chdir(d)
+    try:
+        for n, t in texts.items():
+            with open(n, "w") as f:
+                f.write(t)
+        for n, t in texts.items():
+            lf = Linter(config=FluffConfig.from_path(n)).lint_string(t, fname=n)
+            visible = clifam.api_records(lf)
+            base = clifam.baseline(a if n == "f1.sql" else b)
+            has_err = any(c in ("TMP", "PRS") for c, _, _ in base)
+            per_file[n] = model(visible, has_err, {"feu": False}, None)
+    finally:
+        os.chdir(old)
+    want_lint = max(v[0] for v in per_file.values())
+    want_fix = max(v[1] for v in per_file.values())
+    for cmd, want in (("lint", want_lint), ("fix", want_fix)):
+        import shutil
+
+        d2 = d + "-" + cmd
+        shutil.copytree(d, d2)
+        rc, out, err, exc = cli.run([cmd, "."], cwd=d2)
+        shutil.rmtree(d2, ignore_errors=True)
+        res["n"] += 1
+        if rc != want:
+            feats = {"entry": cmd + "_dir2", "err_a": a["err"], "supp_a": a["supp"], "err_b": b["err"], "supp_b": b["supp"], "got": rc, "want": want}
+            res["fails"].append({"clause": "exit_code_two_files", "features": feats, "detail": {"per_file_model": per_file, "texts": texts, "exc": (exc or "")[-200:]}})
+    res["nontrivial"] = 1
+    res["cls"].add(digest((json.dumps(case, sort_keys=True), want_lint, want_fix)))
+    clifam.cleanup_case(dict(s, text="SELECT 1\n", cfg="[sqlfluff]\ndialect = ansi\nrules = LT01,CP01\n", file="zz_unused.txt"))
 
 
 def model(visible, has_err, s, fixable_any):
@@ -70,6 +125,9 @@ def run_case(case):
             res["fails"].append({"clause": "usage_exit", "features": {"args": " ".join(args)}, "detail": {"rc": rc, "want": want, "exc": (exc or "")[-200:]}})
         res["nontrivial"] = 1
         clifam.cleanup_case(s)
+        return res
+    if case["k"] == "two":
+        run_two(case, res)
         return res
     s = case["s"]
     obs = clifam.observe(s, want=("lint", "fix", "format", "api"))
